@@ -7,6 +7,11 @@ import sys
 VERIF = os.path.dirname(os.path.dirname(os.path.abspath(__file__)))
 
 # id -> dict(level, text, note, technique, design_ref, engine)
+MICRO_TEXT = (" Micro level: the same handlers under the cooperative scheduler (lock acquisitions, channel operations and goroutine "
+              "starts of the rewritten proxy_streams.go / shard_manager.go / admin_stream_transfer.go are scheduling points) with a short "
+              "environment script as one more thread, so every environment step is taken at every scheduling point; every schedule with at "
+              "most 2 (thorough 3) departures from the default schedule is executed (delay bounding), followed by the closing phase.")
+
 ROUTE_NOTE = ("Trusted: the fake gRPC stream endpoints (blocking Recv, context cancellation, CloseSend => peer EOF), the transcription of "
               "Temporal's ExecutableTaskTracker (v1.31.2) used as target model, testing/synctest's virtual time. Assumed: cascades triggered by "
               "one environment event are confluent (events are applied one at a time and run to quiescence); hand-off channel / ring capacities "
@@ -22,8 +27,8 @@ CLAIMED = {
              "path on a fresh instance + one action), states de-duplicated on the environment model plus the private proxy fields later "
              "steps read. Oracle at every SyncReplicationState sent to a source: every task below the ack that the source returned has been "
              "forwarded on a target stream which has emitted a watermark above its proxy id. From every reached state a fair closing phase "
-             "is also run, so the oracle is evaluated on the continuation of every state.",
-        note=ROUTE_NOTE, technique="explicit-state BFS over environment-event orders on the implementation (replay-based successors, virtual time)",
+             "is also run, so the oracle is evaluated on the continuation of every state." + MICRO_TEXT,
+        note=ROUTE_NOTE, technique="explicit-state BFS over environment-event orders on the implementation (replay-based successors, virtual time) + delay-bounded DFS over interleavings (controlled scheduler)",
         design_ref="5/C01", engine="A-macro"),
     "C02": dict(
         level="model_checking",
@@ -31,8 +36,8 @@ CLAIMED = {
              "the last id and above every earlier high, Temporal's tracker model never drops a task or panics, each task on the stream of the "
              "shard Temporal's own hash assigns it to (including same workflow id in two namespaces), payload proto.Equal apart from the two "
              "id fields, per (source,target) order preserved, no task twice; at the end of the closing phase of every state every returned "
-             "task has been delivered exactly once.",
-        note=ROUTE_NOTE, technique="explicit-state BFS over environment-event orders on the implementation + closing phase from every state",
+             "task has been delivered exactly once." + MICRO_TEXT,
+        note=ROUTE_NOTE, technique="explicit-state BFS over environment-event orders on the implementation + closing phase from every state; delay-bounded DFS over interleavings",
         design_ref="5/C02", engine="A-macro"),
     "C03": dict(
         level="model_checking",
@@ -40,7 +45,7 @@ CLAIMED = {
              "watermark returned on that stream) and bounded liveness: from EVERY reached state the deterministic fair closing phase (targets "
              "complete and acknowledge everything, sources send their periodic watermark, 1 s passes; at most 6 rounds) must end with every "
              "source having received an ack equal to its final high watermark. Includes a slow target whose hand-off queue (capacity 1) is "
-             "full when the watermark is broadcast and a target that never receives a task.",
+             "full when the watermark is broadcast and a target that never receives a task." + MICRO_TEXT,
         note=ROUTE_NOTE, technique="explicit-state BFS + bounded fair suffix from every reachable state (virtual time)",
         design_ref="5/C03", engine="A-macro"),
     "C04": dict(
@@ -50,8 +55,8 @@ CLAIMED = {
              "acknowledged level and acknowledgements. Oracle across incarnations: a task below an ack must have been confirmed by some target "
              "stream incarnation. One genuine defect is recorded as a known finding (tasks in flight on a target stream that ends are later "
              "acknowledged); any other early ack is a violation.",
-        note=ROUTE_NOTE + " Faults are injected at quiescent states only (between cascades), <=1 fault per path in quick, <=2 in thorough.",
-        technique="explicit-state BFS over event orders x fault positions on the implementation",
+        note=ROUTE_NOTE + " Macro level: faults at quiescent states, <=1 per path in quick, <=2 in thorough; micro level: one fault per script.",
+        technique="explicit-state BFS over event orders x fault positions + delay-bounded DFS with faults at every scheduling point, on the implementation",
         design_ref="5/C04", engine="A-macro"),
     "C06": dict(
         level="model_checking",
@@ -310,7 +315,7 @@ def main():
              "kind_free_text": "explicit-state / bounded-exhaustive enumeration driving the real code in-package"},
             {"name": "B-enum", "path": "/verif/harness", "serves_properties": ["C07", "C12", "C13", "C14", "C15", "C16", "C17", "C18", "C19"],
              "kind_free_text": "bounded-exhaustive enumeration of a finite structurally defined input space against a reference computed independently"},
-            {"name": "A-micro", "path": "/verif/rt/sched.go + /verif/instr (vinstr) + /verif/harness/proxy/c08_registry.go", "serves_properties": ["C08", "C10", "C11"],
+            {"name": "A-micro", "path": "/verif/rt/sched.go + /verif/instr (vinstr) + /verif/harness/proxy/c08_registry.go", "serves_properties": ["C01", "C02", "C03", "C04", "C08", "C10", "C11"],
              "kind_free_text": "cooperative scheduler over AST-rewritten sources (locks, channel ops, go statements become scheduling points); "
                                "stateless depth-first enumeration of schedules with preemption bounding, one synctest bubble per schedule"},
             {"name": "A-macro", "path": "/verif/harness/proxy/routing_*.go + /verif/rt/pool.go", "serves_properties": ["C01", "C02", "C03", "C04", "C06", "C09", "C10", "C11", "C20"],
